@@ -125,6 +125,14 @@ def plan(tier, seed):
             ([{"create_cache": True, "records_per_chunk": 2}], {"records_per_chunk": 3}, "cached open, other rpc"),
         ):
             cases.append({"spec": {"level": level, "images": images}, "devs": [], "pre": pre, "kw": kw, "label": f"{level} four images, {what}"})
+    # line times decades apart within one image, read back through the cache (offsets from a reference must stay exact)
+    for level in ("1.5", "1.1"):
+        far = [(2014, 1, 0), (2049, 365, 86_399_999), (2030, 200, 43_200_001), (2014, 1, 1)]  # odd millisecond offsets from the first line: not representable as float64 nanoseconds beyond 18 years
+        devs = [["img0", "line", "sensor_acquisition_date", {"hex": struct.pack(">III", *st).hex()}, k] for k, st in enumerate(far)]
+        if level == "1.1":
+            devs += [["img0", "line", "sensor_acquisition_date_microseconds", {"hex": struct.pack(">Q", st[2] * 1000 + 999).hex()}, k] for k, st in enumerate(far)]
+        for pre, what in (([], "uncached"), ([{"create_cache": True}], "cached open")):
+            cases.append({"spec": spec_for(level, 4), "devs": devs, "pre": pre, "kw": {}, "label": f"{level} line times 35 years apart, {what}"})
     # long per-line columns through the cache: piecewise-constant values, and 32-bit maxima / high bits on a few of 4200 lines
     for level in ("1.5", "1.1"):
         flds = [f for f in fields_of(level) if f["kind"] == "B" and "enum" not in f and not f.get("flag") and f["name"] not in synth.LINE_CONSTANTS]
